@@ -3,8 +3,8 @@ from checks_path import *  # noqa
 from conc_common import run_conc, replay_conc
 
 PROPERTY = 'C17'
-GEN = ['LogicVerify']
-PROPS = ['SalsaVerif.Props.C17', 'SalsaVerif.Props.GenLogicVerify']
+GEN = ['LogicVerify', 'LogicDG']
+PROPS = ['SalsaVerif.Props.C17', 'SalsaVerif.Props.GenLogicVerify', 'SalsaVerif.Props.GenLogicDG']
 EXPLANATION = ('`c17_once`: in the Lean sync-table transition system extended with a ghost execution counter (ExecBegin requires holding the '
                'claim after a failed re-check; Publish precedes Release), every reachable state has execCount k <= 1 — mutual exclusion is '
                'derived from the sync table, not assumed; `c17_no_second_exec`, `c17_executed_then_memo`. Tied to salsa by counting '
